@@ -3,6 +3,7 @@ package main
 // Evaluation of contract expressions to SMT terms.
 
 import (
+	"hash/fnv"
 	"fmt"
 	"go/token"
 	"go/types"
@@ -789,6 +790,22 @@ func (c *evalCtx) evalCall(x *ECall) TV {
 		tv := c.eval(f)
 		c.st, c.old, c.inOld = saved, savedOld, savedIn
 		return tv
+	case "slot":
+		// slot(x.f): the identity of field f of object x as a registry key (sync.Map fields are
+		// keyed by slot, so that two registries of one object never alias)
+		f, ok := x.Args[0].(*EField)
+		if !ok {
+			c.fail("slot(x.f)")
+		}
+		base := c.eval(f.X)
+		if base.Typ == nil {
+			c.fail("slot(x.f): untyped base")
+		}
+		bt := base.Typ
+		if pt, isP := bt.Underlying().(*types.Pointer); isP {
+			bt = pt.Elem()
+		}
+		return TV{T: fmt.Sprintf("(fslot %s %d)", base.T, fieldSlotID(bt, f.Name)), Sort: "Ref"}
 	case "has":
 		m := c.eval(x.Args[0])
 		k := c.eval(x.Args[1])
@@ -1190,4 +1207,11 @@ func (e *Enc) dominatesPoint(v ssa.Value, b *ssa.BasicBlock) bool {
 		return v.Block() == b || v.Block().Dominates(b)
 	}
 	return false
+}
+
+// fieldSlotID is a stable small integer naming field `name` of struct type t.
+func fieldSlotID(t types.Type, name string) int {
+	h := fnv.New32a()
+	h.Write([]byte(typeStr(t) + "." + name))
+	return int(h.Sum32() & 0x3fffffff)
 }
